@@ -519,20 +519,33 @@ def check_prompt_fn(c, repo):
     rf = set(r for r in returns(f) if is_const(r.ast.value, False))
     rt = set(r for r in returns(f) if is_const(r.ast.value, True))
     waits_ = [n for n, k in ks]
-    c.need(all(isinstance(n.ast, ast.Assign) and isinstance(n.ast.targets[0], ast.Name) for n in waits_), 'set_unique_prompt: the index of a wait is not kept in a local')
-    iv = waits_[0].ast.targets[0].id
-    hit = [('0 == %s' % iv, False, {iv})]          # the wait did NOT time out (index 0 = TIMEOUT): the unique prompt was seen
-    miss = [('0 == %s' % iv, True, {iv})]
+    # the outcome of a wait: kept in a local (`i = self.expect(..)`, decided by the facts on that local along the path) or compared where
+    # it is produced (`if self.expect(..) != 0:`, decided by the edge taken out of that test)
+    how = {}
+    for n, k in ks:
+        if isinstance(n.ast, ast.Assign) and isinstance(n.ast.targets[0], ast.Name) and n.kind != 'test':
+            iv = n.ast.targets[0].id
+            how[n] = (dict(assume=[('0 == %s' % iv, False, {iv})]), dict(assume=[('0 == %s' % iv, True, {iv})]))
+        else:
+            t_ = [(tn_, lab_) for tn_, lab_ in relation_tests(g, 'eq', lambda e, k=k: e is k, lambda e: is_const(e, 0) or is_const(e, 1)) if tn_ is n]
+            c.need(n.kind == 'test' and len(t_) == 1 and isinstance(k.args[0], ast.List) and len(k.args[0].elts) == 2,
+                   'set_unique_prompt: the index of a wait is neither kept in a local nor compared with 0 / 1 in place')
+            lab0 = t_[0][1]          # the edge on which the index IS 0 (timed out); of a two-entry list the index is 0 or 1
+            rel_ = relation(n.ast)
+            if is_const(rel_[1], 1) or is_const(rel_[2], 1):
+                lab0 = other(lab0)
+            how[n] = (dict(avoid_edges={(n, lab0)}), dict(avoid_edges={(n, other(lab0))}))
     sends_ = set(n for n, k in cfg_nodes_with_call(f, lambda k: callee_last(k) in ('sendline', 'send')))
     okf = bool(rf) and all(g.dominated_by(r, {w})[0] for r in rf for w in waits_)
     okt = bool(rt)
     for w in waits_:
         rest = set(waits_) - {w}
+        hit, miss = how[w]
         # after a wait that saw the prompt: straight to `return True`, nothing more is sent or awaited, never False
-        if g.path(w, rf | sends_ | rest | {g.exit}, avoid=rt, skip_labels=('exc',), include_start=False, assume=hit) is not None:
+        if g.path(w, rf | sends_ | rest | {g.exit}, avoid=rt, skip_labels=('exc',), include_start=False, **hit) is not None:
             okt = False
         # after a wait that timed out: never True before the next attempt
-        if g.path(w, rt, avoid=rest, skip_labels=('exc',), include_start=False, assume=miss) is not None:
+        if g.path(w, rt, avoid=rest, skip_labels=('exc',), include_start=False, **miss) is not None:
             okf = False
     c.check(okf, f, None, 'False only after all three attempts timed out (index 0 = TIMEOUT)', kind='path', tag='sup-false')
     c.check(okt, f, None, 'True as soon as one attempt shows the unique prompt', kind='path', tag='sup-true')
